@@ -32,9 +32,9 @@ ASSUMPTIONS = [
     "cost is measured in elements touched inside pydsdl._bit_length_set._symbolic (product / multicombination tuples x tuple length) and in the size of sets returned by expand(); a slowdown that bypasses both would be missed",
     "templates whose legitimate residue enumeration is itself large (the documented C(r + k, k) growth in the number of residues) are filtered out by a cost model so that the budget stays meaningful",
 ]
-BUDGET = {"quick": 400, "thorough": 8000}
+BUDGET = {"quick": 1200, "thorough": 24000}
 
-WORK_BUDGET = 40_000_000
+WORK_BUDGET = 120_000_000
 MAX_EXPANSION = 64
 CPU_BUDGET_S = 8.0  # CPU seconds (ITIMER_VIRTUAL: insensitive to machine load) per variant; legitimate cases need milliseconds
 
@@ -244,7 +244,7 @@ def _verify_pair(kind: str, small: Meter, huge: Meter, es: typing.Any, eh: typin
             return "more than %.0f CPU seconds (cut off)" % CPU_BUDGET_S
         return repr(e)[:200]
 
-    # the cost-model filter keeps the legitimate cost of both variants three orders of magnitude below the budgets, so exceeding
+    # the cost-model filter keeps the legitimate cost of both variants well below the budgets (largest legitimate work seen: 1.5e7 elements, budget 1.2e8), so exceeding
     # one - with the small capacities (2**8 .. 2**32) or with the huge ones - means the analysis scales with the capacity
     require(es is None, label(es) + ":" + kind, "analysis of the small variant completes within the budgets", describe(es), where)
     require(eh is None, label(eh) + ":" + kind, "work(huge) about %d elements / %.2f CPU s like the small variant" % (small.work, small.cpu_s), describe(eh), where)
@@ -272,7 +272,7 @@ def check_cost(case: typing.Any, ctx: Ctx) -> Info:
         est = sum(rbls.modulo_cost(layout.tree(s_small), d) for d in (8, 32))
     except rbls.TooBig:
         est = 10**9
-    if est > 150_000:
+    if est > 600_000:
         ctx.extra["filtered_by_cost_model"] = ctx.extra.get("filtered_by_cost_model", 0) + 1
         return Info(False, ["filtered"])
     where = "small %s | huge %s" % (layout.type_string(s_small)[:300], layout.type_string(s_huge)[:300])
@@ -337,10 +337,25 @@ def _templates() -> st.SearchStrategy:
         comp = st.one_of(struct, struct, union)
         return st.one_of(comp, comp, st.tuples(comp, st.one_of(st.integers(0, 2), slot)).map(lambda t: ["delim", t[0], t[1]]))
 
+    def force_var(t: typing.Any, leaf: typing.Any, pos: int) -> typing.Any:
+        """The composite `t` with one more member: a variable-length array (constructed, not filtered for)."""
+        body = t[1] if t[0] == "delim" else t
+        fields = list(body[1])
+        fields.insert(pos % (len(fields) + 1), ["fx", leaf])
+        body = [body[0], fields] + list(body[2:])
+        return ["delim", body, t[2]] if t[0] == "delim" else body
+
+    var_leaf = st.one_of(slot.map(lambda s: ["var", ["utf8"], s]), slot.map(lambda s: ["var", ["byte"], s]), st.tuples(prim, cap).map(lambda t: ["var", t[0], t[1]]))
     level1 = composite(level0)
+    # a variable-length array (capacity slot) of composites that themselves hold a variable-length array: the shape whose naive
+    # analysis is quadratic-or-worse in the capacities and the one the non-triviality rule asks for
+    nested1 = st.tuples(level1, var_leaf, st.integers(0, 4), st.one_of(slot, slot, slot, small_cap)).map(lambda t: ["var", force_var(t[0], t[1], t[2]), t[3]])
     level2 = composite(st.one_of(level0, level1, arrays(level1)))
+    level2n = composite(st.one_of(level0, nested1, nested1))
+    nested2 = st.tuples(level2n, var_leaf, st.integers(0, 4), st.one_of(slot, small_cap)).map(lambda t: ["var", force_var(t[0], t[1], t[2]), t[3]])
     level3 = composite(st.one_of(level0, level1, level2, arrays(level2), arrays(level1)))
-    return st.one_of(level1, level2, level2, level3, level3, level3).filter(lambda t: len(slots(t)) >= 1)
+    level3n = composite(st.one_of(level0, level2n, nested2, nested1))
+    return st.one_of(level1, level2, level2n, level2n, level3, level3n, level3n).filter(lambda t: len(slots(t)) >= 1)
 
 
 def parts(ctx: Ctx) -> typing.List[Part]:
